@@ -509,8 +509,8 @@ end Own
   behaviour) when it is violated; a tick counter makes the `t`-th call into user code panic. `AG.Inv` is the weak
   invariant over the whole heap: node ids distinct (so no node is in two lists, or in a list and owned by a frame),
   every index entry of list `c` names a node linked in list `c` with that key, `fault = false`.
-  Every operation of SegmentedCache, TwoQueueCache, AdaptiveCache (and every public RawLRU operation on one of their
-  lists, which is all WTinyLFUCache uses), started in ANY invariant state — in particular one left behind by an earlier
+  Every operation of SegmentedCache, TwoQueueCache, AdaptiveCache, WTinyLFUCache (and every public RawLRU operation on
+  one of their lists), started in ANY invariant state — in particular one left behind by an earlier
   panic — and aborted at ANY tick or completing, ends in an invariant state: no primitive is ever used outside its
   contract (no node linked twice, none freed twice or while linked, no sentinel read as an entry). -/
 section Composite
